@@ -30,6 +30,9 @@ type GatedStore struct {
 	// FailAbove > 0: a Store call that arrives while more than FailAbove calls (itself included) are in
 	// flight fails, like a store that throttles concurrent requests.
 	FailAbove int
+	// NameHook, when set, sees every Store call first (outside the lock); it may block, and returning true makes that
+	// call fail.
+	NameHook func(name string) (fail bool)
 	// FailErr, when set, is what failing Store calls return (default ErrInjected)
 	FailErr error
 	// OnArrival, when set, is called (outside the lock) with the arrival index of every Store call.
@@ -94,6 +97,9 @@ func (g *GatedStore) Store(ctx context.Context, name string, b []byte) error {
 	g.mu.Unlock()
 	if onArrival != nil {
 		onArrival(idx)
+	}
+	if hook := g.NameHook; hook != nil && hook(name) {
+		f.Fail = true
 	}
 	for i := 0; i < f.Delay*40; i++ {
 		runtime.Gosched()
